@@ -257,3 +257,14 @@ func init() {
 		}
 	}
 }
+
+func init() {
+	exploreExtra["loopaccum"] = func(p *Prog) {
+		c := NewCtx(p, "X", "quick")
+		c.quiet = true
+		ruleLoopAccum(c, "LOOP-ACCUM", p.ModulePkgs())
+		for _, o := range c.Obls {
+			fmt.Printf("%s\t%s\t%v\t%s\n", o.Pos, o.Instance, o.OK, short(o.Msg, 200))
+		}
+	}
+}
